@@ -869,3 +869,142 @@ Proof.
   apply validate_gradient_fields_ok in Hg1 as (_ & _ & _ & _ & ->).
   eapply (fix_perturbations_entry E vars _ g mags ty i t x Hg); cbn [g_mags g_ptypes]; rewrite ?Hi; assumption.
 Qed.
+
+(* =============================================================================================
+   completeness: a consistent dictionary is accepted (no transform in the context)
+   ============================================================================================= *)
+Definition nvars (raw : config) : nat := length (v_initial (c_vars raw)).
+Definition can_broadcast {A} (n : nat) (l : list A) : Prop := length l = 1%nat \/ length l = n.
+Definition can_broadcast1 {A} (n : nat) (l : list A) : Prop := n = 0%nat \/ can_broadcast n l.
+(* the result of broadcast_1d_array(l, n) *)
+Definition bresult1 {A} (n : nat) (l : list A) : list A := if Nat.eqb n 0 then [] else expand n l.
+
+Record consistent (E : enums) (raw : config) : Prop := {
+  cs_lower : can_broadcast1 (nvars raw) (v_lower (c_vars raw));
+  cs_upper : can_broadcast1 (nvars raw) (v_upper (c_vars raw));
+  cs_order : ~ crossed (bresult1 (nvars raw) (v_lower (c_vars raw))) (bresult1 (nvars raw) (v_upper (c_vars raw)));
+  cs_types : match v_types (c_vars raw) with None => True
+             | Some t => enum_ok (vt_lo E) (vt_hi E) t = true /\ can_broadcast1 (nvars raw) t end;
+  cs_mask : match v_mask (c_vars raw) with None => True | Some m => can_broadcast1 (nvars raw) m end;
+  cs_obj : float_eps <= qsum (c_obj_w raw);
+  cs_real : float_eps <= qsum (c_real_w raw);
+  cs_P : (0 < g_P (c_grad raw))%nat;
+  cs_pmin : g_pmin (c_grad raw) <> Some 0%nat;
+  cs_ptypes : enum_ok (pt_lo E) (pt_hi E) (g_ptypes (c_grad raw)) = true /\ can_broadcast (nvars raw) (g_ptypes (c_grad raw));
+  cs_btypes : enum_ok (bt_lo E) (bt_hi E) (g_btypes (c_grad raw)) = true /\ can_broadcast (nvars raw) (g_btypes (c_grad raw));
+  cs_mags : can_broadcast (nvars raw) (g_mags (c_grad raw));
+  cs_relative : forall i, nth_error (expand (nvars raw) (g_ptypes (c_grad raw))) i = Some (pt_rel E) ->
+                exists a b, nth_error (bresult1 (nvars raw) (v_lower (c_vars raw))) i = Some (Fin a) /\
+                            nth_error (bresult1 (nvars raw) (v_upper (c_vars raw))) i = Some (Fin b);
+  cs_lin : match c_lin raw with None => True | Some l =>
+             Forall (fun r => length r = nvars raw) (l_coeffs l) /\
+             can_broadcast1 (length (l_coeffs l)) (l_lower l) /\ can_broadcast1 (length (l_coeffs l)) (l_upper l) /\
+             ~ crossed (bresult1 (length (l_coeffs l)) (l_lower l)) (bresult1 (length (l_coeffs l)) (l_upper l)) end;
+  cs_nonlin : match c_nonlin raw with None => True | Some nl =>
+             (length (n_lower nl) = 1%nat \/ length (n_upper nl) = 1%nat \/ length (n_lower nl) = length (n_upper nl)) /\
+             ~ crossed (expand (length (n_upper nl)) (n_lower nl)) (expand (length (n_lower nl)) (n_upper nl)) end
+}.
+
+Lemma bcast_to_total {A} n (l : list A) : can_broadcast n l -> bcast_to n l = Ok (expand n l).
+Proof.
+  intros [H|H]; unfold bcast_to, expand; destruct l as [|x [|y t]]; try reflexivity; try discriminate;
+    rewrite H, Nat.eqb_refl; reflexivity.
+Qed.
+
+Lemma broadcast1_total {A} n (l : list A) : can_broadcast1 n l -> broadcast1 n l = Ok (bresult1 n l).
+Proof.
+  intros H. unfold broadcast1, bresult1. destruct (Nat.eqb n 0) eqn:E; [reflexivity|].
+  destruct H as [H|H]; [apply Nat.eqb_neq in E; contradiction | apply bcast_to_total; exact H].
+Qed.
+
+Lemma not_crossed_any_gt lo up : ~ crossed lo up -> any_gt lo up = false.
+Proof. intros H. destruct (any_gt lo up) eqn:E; [apply any_gt_spec in E; contradiction | reflexivity]. Qed.
+
+Lemma bcast_pair_total {A} (a b : list A) : length a = 1%nat \/ length b = 1%nat \/ length a = length b ->
+  bcast_pair a b = Ok (expand (length b) a, expand (length a) b).
+Proof.
+  intros H. unfold bcast_pair, expand. destruct a as [|x [|x2 ta]]; destruct b as [|y [|y2 tb]]; cbn in *; try reflexivity;
+    try (exfalso; lia).
+  destruct H as [H|[H|H]]; try (exfalso; lia). injection H as H. rewrite H, Nat.eqb_refl. reflexivity.
+Qed.
+
+Lemma relative_scale_total rel ty lo up m : length ty = length m -> length lo = length m -> length up = length m ->
+  (forall i, nth_error ty i = Some rel -> exists a b, nth_error lo i = Some (Fin a) /\ nth_error up i = Some (Fin b)) ->
+  exists r, relative_scale rel ty lo up m = Ok r.
+Proof.
+  revert lo up m. induction ty as [|t ty IH]; intros lo up m Ht Hl Hu Hf.
+  - destruct m; [|discriminate]. destruct lo; [|discriminate]. destruct up; [|discriminate]. exists []. reflexivity.
+  - destruct m as [|x m]; [discriminate|]. destruct lo as [|l lo]; [discriminate|]. destruct up as [|u up]; [discriminate|].
+    cbn in Ht, Hl, Hu. destruct (IH lo up m) as [r Hr]; try lia.
+    { intros i Hi. apply (Hf (S i)). exact Hi. }
+    cbn [relative_scale]. rewrite Hr. cbn [bind]. destruct (Z.eqb t rel) eqn:Et; [|eexists; reflexivity].
+    apply Z.eqb_eq in Et. subst t. destruct (Hf 0%nat eq_refl) as (a & b & Ha & Hb). cbn in Ha, Hb.
+    injection Ha as ->. injection Hb as ->. eexists; reflexivity.
+Qed.
+
+Lemma bresult1_length {A} n (l : list A) : can_broadcast1 n l -> length (bresult1 n l) = n.
+Proof. intros H. pose proof (broadcast1_total n l H) as Hb. apply broadcast1_ok in Hb as [Hl _]. exact Hl. Qed.
+
+Lemma consistent_accepted E raw : consistent E raw -> exists c, validate E None None raw = Ok c.
+Proof.
+  intros [Hlo Hup Hord Hty Hmk Hobj Hreal HP Hpm [Hpte Hptl] [Hbte Hbtl] Hmg Hrel Hlin Hnl].
+  unfold nvars in *. set (V := length (v_initial (c_vars raw))) in *.
+  (* variables *)
+  assert (Hv : exists ty mk, validate_variables E None (c_vars raw) =
+            Ok {| v_initial := v_initial (c_vars raw); v_lower := bresult1 V (v_lower (c_vars raw));
+                  v_upper := bresult1 V (v_upper (c_vars raw)); v_types := ty; v_mask := mk |}).
+  { unfold validate_variables. cbn zeta. fold V. rewrite (broadcast1_total _ _ Hlo). cbn [bind].
+    rewrite (broadcast1_total _ _ Hup). cbn [bind]. rewrite (not_crossed_any_gt _ _ Hord). cbn [negb guard bind].
+    destruct (v_types (c_vars raw)) as [t|]; cbn [omap bind].
+    - destruct Hty as [Hte Htl]. rewrite Hte. cbn [guard bind]. rewrite (broadcast1_total _ _ Htl). cbn [bind].
+      destruct (v_mask (c_vars raw)) as [m|]; cbn [omap bind]; [rewrite (broadcast1_total _ _ Hmk); cbn [bind]|]; eexists; eexists; reflexivity.
+    - destruct (v_mask (c_vars raw)) as [m|]; cbn [omap bind]; [rewrite (broadcast1_total _ _ Hmk); cbn [bind]|]; eexists; eexists; reflexivity. }
+  destruct Hv as (ty & mk & Hv).
+  (* weights *)
+  assert (How : exists ow, normalize (c_obj_w raw) = Ok ow).
+  { unfold normalize. cbn zeta. destruct (Qltb (qsum (c_obj_w raw)) float_eps) eqn:Eq; [apply Qltb_lt in Eq; lra | eexists; reflexivity]. }
+  assert (Hrw : exists rw, normalize (c_real_w raw) = Ok rw).
+  { unfold normalize. cbn zeta. destruct (Qltb (qsum (c_real_w raw)) float_eps) eqn:Eq; [apply Qltb_lt in Eq; lra | eexists; reflexivity]. }
+  destruct How as [ow How]. destruct Hrw as [rw Hrw].
+  (* linear *)
+  assert (Hl : exists lin, omap validate_linear_fields (c_lin raw) = Ok lin /\
+                 forall vars, length (v_initial vars) = V -> omap (apply_transformation None vars) lin = Ok lin).
+  { destruct (c_lin raw) as [l|]; [|exists None; split; [reflexivity | intros; reflexivity]].
+    destruct Hlin as (Hrows & Hll & Hlu & Hlo'). cbn [omap]. unfold validate_linear_fields. cbn zeta.
+    fold (rectangular (l_coeffs l)). rewrite (rectangular_of_rows V _ Hrows). cbn [guard bind].
+    rewrite (broadcast1_total _ _ Hll). cbn [bind]. rewrite (broadcast1_total _ _ Hlu). cbn [bind].
+    rewrite (not_crossed_any_gt _ _ Hlo'). cbn [negb guard bind]. eexists. split; [reflexivity|].
+    intros vars Hn. cbn [omap]. unfold apply_transformation. cbn zeta. cbn [l_coeffs]. rewrite Hn.
+    assert (Hg : forallb (fun r => Nat.eqb (length r) V) (l_coeffs l) = true).
+    { apply forallb_forall. intros r Hr. rewrite Forall_forall in Hrows. apply Nat.eqb_eq. apply Hrows; exact Hr. }
+    rewrite Hg. reflexivity. }
+  destruct Hl as (lin & Hl1 & Hl2).
+  (* non-linear *)
+  assert (Hn : exists nl, omap (validate_nonlinear None) (c_nonlin raw) = Ok nl).
+  { destruct (c_nonlin raw) as [nl|]; [|exists None; reflexivity]. destruct Hnl as [Hlen Hx]. cbn [omap].
+    unfold validate_nonlinear. rewrite (bcast_pair_total _ _ Hlen). cbn [bind fst snd nl_ok supported].
+    rewrite (not_crossed_any_gt _ _ Hx). cbn [negb guard bind]. eexists; reflexivity. }
+  destruct Hn as [nl Hn].
+  (* gradient *)
+  assert (Hg1 : validate_gradient_fields E (c_grad raw) =
+                Ok {| g_P := g_P (c_grad raw); g_pmin := clamp_min (g_pmin (c_grad raw)) (g_P (c_grad raw));
+                      g_mags := g_mags (c_grad raw); g_ptypes := g_ptypes (c_grad raw); g_btypes := g_btypes (c_grad raw) |}).
+  { unfold validate_gradient_fields. apply Nat.ltb_lt in HP. rewrite HP. cbn [guard bind].
+    destruct (g_pmin (c_grad raw)) as [[|k]|]; [contradiction | |]; cbn [guard bind]; rewrite Hpte, Hbte; reflexivity. }
+  set (vars := {| v_initial := v_initial (c_vars raw); v_lower := bresult1 V (v_lower (c_vars raw));
+                  v_upper := bresult1 V (v_upper (c_vars raw)); v_types := ty; v_mask := mk |}) in *.
+  assert (Hg2 : exists g, fix_perturbations E None vars
+                  {| g_P := g_P (c_grad raw); g_pmin := clamp_min (g_pmin (c_grad raw)) (g_P (c_grad raw));
+                     g_mags := g_mags (c_grad raw); g_ptypes := g_ptypes (c_grad raw); g_btypes := g_btypes (c_grad raw) |} = Ok g).
+  { unfold fix_perturbations. cbn zeta. cbn [vars v_initial v_lower v_upper g_mags g_ptypes g_btypes g_P g_pmin]. fold V.
+    rewrite (bcast_to_total _ _ Hmg). cbn [bind]. rewrite (bcast_to_total _ _ Hbtl). cbn [bind].
+    rewrite (bcast_to_total _ _ Hptl). cbn [bind].
+    pose proof (bcast_to_ok _ _ _ (bcast_to_total _ _ Hmg)) as [Hml _].
+    pose proof (bcast_to_ok _ _ _ (bcast_to_total _ _ Hptl)) as [Htl _].
+    destruct (relative_scale_total (pt_rel E) (expand V (g_ptypes (c_grad raw))) (bresult1 V (v_lower (c_vars raw)))
+                (bresult1 V (v_upper (c_vars raw))) (expand V (g_mags (c_grad raw)))) as [r Hr];
+      [lia | rewrite (bresult1_length _ _ Hlo); lia | rewrite (bresult1_length _ _ Hup); lia | exact Hrel |].
+    rewrite Hr. cbn [bind]. eexists; reflexivity. }
+  destruct Hg2 as [g Hg2].
+  eexists. eapply validate_fold; try eassumption. apply Hl2. reflexivity.
+Qed.
